@@ -22,12 +22,16 @@ type boxModel struct {
 	a, b            int
 	items           []int
 	recs            [][2]int // tag value, cell value
+	twin            int      // len(box.twin)
+	twinHW          int      // highest len(twin) ever reached (slots below it hold an emptied string, not a nil value)
+	bagTwin, bagLog int      // gno/bag/bag.gno: len(twin), len(log)
 }
 
 func newBoxModel() *boxModel { return &boxModel{idx: map[int]bool{}} }
 
 func (m *boxModel) clone() *boxModel {
-	n := &boxModel{counter: m.counter, nextID: m.nextID, logLen: m.logLen, a: m.a, b: m.b, idx: map[int]bool{}}
+	n := &boxModel{counter: m.counter, nextID: m.nextID, logLen: m.logLen, a: m.a, b: m.b, idx: map[int]bool{},
+		twin: m.twin, twinHW: m.twinHW, bagTwin: m.bagTwin, bagLog: m.bagLog}
 	for k := range m.idx {
 		n.idx[k] = true
 	}
@@ -171,6 +175,39 @@ func (m *boxModel) apply(fn string, args []string) (panics bool) {
 			i, j := ai(0)%len(m.items), ai(1)%len(m.items)
 			m.items[i], m.items[j] = m.items[j], m.items[i]
 		}
+	case "MoveItem":
+		if len(m.items) >= 2 {
+			i, j := ai(0)%len(m.items), ai(1)%len(m.items)
+			if i != j {
+				it := m.items[i]
+				if i < j {
+					copy(m.items[i:j], m.items[i+1:j+1])
+				} else {
+					copy(m.items[j+1:i+1], m.items[j:i])
+				}
+				m.items[j] = it
+			}
+		}
+	case "ReplaceItem":
+		if len(m.items) > 0 {
+			m.items[ai(0)%len(m.items)] = ai(1)
+		}
+	case "Rehome":
+		if len(m.recs) >= 2 {
+			i, j := ai(0)%len(m.recs), ai(1)%len(m.recs)
+			if i != j {
+				m.recs[i][1], m.recs[j][1] = m.recs[j][1], m.recs[i][1]
+			}
+		}
+	case "ResetRec":
+		if len(m.recs) > 0 {
+			m.recs[ai(0)%len(m.recs)] = [2]int{ai(1), -ai(1)}
+		}
+	case "GrowTwin":
+		m.twin += ai(0)
+		m.twinHW = max(m.twinHW, m.twin)
+	case "ShrinkTwin":
+		m.twin -= min(ai(0), m.twin)
 	case "Recurse", "Alloc", "BigString":
 	case "Forever":
 		return true // never terminates within gas; always out of gas
@@ -178,6 +215,32 @@ func (m *boxModel) apply(fn string, args []string) (panics bool) {
 		panic("boxModel: unknown fn " + fn)
 	}
 	return false
+}
+
+// applyBag executes one call of gno/bag/bag.gno (which crosses into box).
+func (m *boxModel) applyBag(fn string, args []string) (panics bool) {
+	ai := func(i int) int { v, _ := strconv.Atoi(args[i]); return v }
+	switch fn {
+	case "GrowBoth":
+		m.bagTwin += ai(0)
+		m.twin += ai(0)
+		m.twinHW = max(m.twinHW, m.twin)
+	case "ShrinkBoth":
+		m.bagTwin -= min(ai(0), m.bagTwin)
+		m.twin -= min(ai(0), m.twin)
+	case "GrowSkew":
+		m.bagLog += ai(0)
+		m.logLen += ai(2)
+	case "Trim":
+		m.bagLog -= min(ai(0), m.bagLog)
+	default:
+		panic("boxModel: unknown bag fn " + fn)
+	}
+	return false
+}
+
+func (m *boxModel) dumpBag() string {
+	return fmt.Sprintf("twin=%d log=%d", m.bagTwin, m.bagLog)
 }
 
 func (m *boxModel) dump() string {
@@ -206,5 +269,6 @@ func (m *boxModel) dump() string {
 	for _, r := range m.recs {
 		fmt.Fprintf(&sb, "%d:%d,", r[0], r[1])
 	}
+	fmt.Fprintf(&sb, " twin=%d", m.twin)
 	return sb.String()
 }
